@@ -338,6 +338,12 @@ fn check_echo(data: &[u8]) -> Result<(), Failure> {
     let case = json!({"kind":"echo","data":hex(data)});
     let r = catch(|| {
         let mut c = EchoIncPayloadAnsCreator::new();
+        // a creator that has been used before: an earlier payload, longer or shorter than this one
+        if data.first().map(|b| b % 2 == 1).unwrap_or(false) {
+            let earlier: Vec<u8> = (0..(data.len() * 2 + 3).min(241)).map(|i| (i as u8).wrapping_mul(37)).collect();
+            c.payload(&earlier);
+            c.payload(&earlier[..data.len() / 2]);
+        }
         c.payload(data);
         (c.build().to_vec(), c.len())
     });
@@ -391,9 +397,16 @@ fn check_req_group(mask: Option<u8>, groups: &[u8]) -> Result<(), Failure> {
 fn check_cert_fixed(rx_app_cnt: u16, versions: [u8; 12]) -> Result<(), Failure> {
     let case = json!({"kind":"cert_fixed","rx_app_cnt":rx_app_cnt,"versions":hex(&versions)});
     let r = catch(|| {
+        // every second case on creators that have been used before (complemented values first)
         let mut a = RxAppCntAnsCreator::new();
-        a.set_rx_app_cnt(rx_app_cnt);
         let mut d = DutVersionsAnsCreator::new();
+        if rx_app_cnt % 2 == 1 {
+            a.set_rx_app_cnt(!rx_app_cnt);
+            let mut inv = versions;
+            inv.iter_mut().for_each(|b| *b = !*b);
+            d.set_versions_raw(inv);
+        }
+        a.set_rx_app_cnt(rx_app_cnt);
         d.set_versions_raw(versions);
         (a.build().to_vec(), d.build().to_vec())
     });
@@ -524,11 +537,20 @@ fn check_group_status(nb_total: u8, items: &[(u8, u32)], nb_at: u8, kf: &KnownFi
 }
 
 /// McGroupSetupReq with key wrap: parse back and unwrap the key with the independent AES
-fn check_group_setup(gid: u8, addr: u32, mc_key: [u8; 16], ke_key: [u8; 16], minf: u32, maxf: u32, order: u8) -> Result<(), Failure> {
-    let case = json!({"kind":"group_setup","gid":gid,"addr":addr,"mc_key":hex(&mc_key),"ke_key":hex(&ke_key),"min":minf,"max":maxf,"order":order});
+/// `prior`: the creator has been used before — every setter was called once with other values (group id
+/// `prior`, complemented address and counters, the wrapping key as multicast key) before the values judged
+fn check_group_setup(gid: u8, addr: u32, mc_key: [u8; 16], ke_key: [u8; 16], minf: u32, maxf: u32, order: u8, prior: Option<u8>) -> Result<(), Failure> {
+    let case = json!({"kind":"group_setup","gid":gid,"addr":addr,"mc_key":hex(&mc_key),"ke_key":hex(&ke_key),"min":minf,"max":maxf,"order":order,"prior":prior});
     let r = catch(|| {
         let mut c = McGroupSetupReqCreator::new();
         let crypto = DefaultNetworkCrypto::new(&AES128(ke_key));
+        if let Some(g0) = prior {
+            c.mc_group_id_header(g0);
+            c.mc_addr(&McAddr::from_value(!addr));
+            c.mc_key(&crypto, &keys::McKey::from(ke_key));
+            c.min_mc_fcount(!minf);
+            c.max_mc_fcount(!maxf);
+        }
         let mut idx = [0usize, 1, 2, 3, 4];
         idx.rotate_left((order % 5) as usize);
         if order & 8 != 0 {
@@ -799,7 +821,7 @@ pub fn replay(case: &Value, kf: &KnownFindings) -> Result<(), Failure> {
             let items: Vec<(u8, u32)> = case["items"].as_array().map(|a| a.iter().map(|x| (x[0].as_u64().unwrap_or(0) as u8, x[1].as_u64().unwrap_or(0) as u32)).collect()).unwrap_or_default();
             check_group_status(case["nb_total"].as_u64().unwrap_or(0) as u8, &items, case["nb_at"].as_u64().unwrap_or(0) as u8, kf, &mut ex)
         }
-        Some("group_setup") => check_group_setup(case["gid"].as_u64().unwrap_or(0) as u8, case["addr"].as_u64().unwrap_or(0) as u32, unhex(case["mc_key"].as_str().unwrap_or("")).try_into().unwrap_or([0; 16]), unhex(case["ke_key"].as_str().unwrap_or("")).try_into().unwrap_or([0; 16]), case["min"].as_u64().unwrap_or(0) as u32, case["max"].as_u64().unwrap_or(0) as u32, case["order"].as_u64().unwrap_or(0) as u8),
+        Some("group_setup") => check_group_setup(case["gid"].as_u64().unwrap_or(0) as u8, case["addr"].as_u64().unwrap_or(0) as u32, unhex(case["mc_key"].as_str().unwrap_or("")).try_into().unwrap_or([0; 16]), unhex(case["ke_key"].as_str().unwrap_or("")).try_into().unwrap_or([0; 16]), case["min"].as_u64().unwrap_or(0) as u32, case["max"].as_u64().unwrap_or(0) as u32, case["order"].as_u64().unwrap_or(0) as u8, case["prior"].as_u64().map(|g| g as u8)),
         Some("sequence") => {
             let seq: Vec<(usize, Vec<(usize, u64)>)> = case["seq"].as_array().map(|a| a.iter().filter_map(|e| {
                 let ci = cmds.iter().position(|c| Some(c.name) == e[0].as_str())?;
@@ -1013,7 +1035,9 @@ pub fn run(ctx: &mut Ctx) {
             st.eval();
             st.class("group-setup");
             let (gid, addr, mk, kk, a, b, o) = (rng.next_u32() as u8, if i < 4 { 0x01020304 } else { rng.next_u32() }, rng.key(), rng.key(), if i % 3 == 0 { 0x0A0B0C0D } else { rng.next_u32() }, rng.next_u32(), rng.next_u32() as u8);
-            match check_group_setup(gid, addr, mk, kk, a, b, o) {
+            // every second creator has been used before (all four group ids, and ids with RFU bits)
+            let prior = if i % 2 == 1 { Some(if i % 16 == 1 { rng.next_u32() as u8 } else { (i / 2 % 4) as u8 }) } else { None };
+            match check_group_setup(gid, addr, mk, kk, a, b, o, prior) {
                 Ok(()) => st.nt_hash(fnv64(&mk)),
                 Err(f) => st.fail(f),
             }
